@@ -33,11 +33,11 @@ CASES = [
       "                self.data[ti,:,:,:,:] = \\\n                    numpy.tensordot(self.data[ti-1,:,:,:,:], Ut1)\n                             \n        elif"),
     m("calculate() does not re-initialise", "C08-C", "        self._initialize_data()\n         \n", "        \n"),
     m("incremental: now not advanced in later steps", "C08-D",
-      "                    self.data[:,:,:,:] = \\\n                        numpy.tensordot(self.Udt, self.data[:,:,:,:])\n                \n                self.now += 1",
-      "                    self.data[:,:,:,:] = \\\n                        numpy.tensordot(self.Udt, self.data[:,:,:,:])\n                "),
+      "                    self.data[:,:,:,:] = \\\n                        numpy.tensordot(self.Udt.data, self.data[:,:,:,:])\n                \n                self.now += 1",
+      "                    self.data[:,:,:,:] = \\\n                        numpy.tensordot(self.Udt.data, self.data[:,:,:,:])\n                "),
     m("incremental: first step uses another dense length", "C08-D",
-      "                self.Udt = self._one_step_with_dense_TimeIndep(t0,\n                                                    self.dense_time.length,",
-      "                self.Udt = self._one_step_with_dense_TimeIndep(t0,\n                                                    self.dense_time.length-1,"),
+      "                           self._one_step_with_dense_TimeIndep(t0,\n                                                    self.dense_time.length,",
+      "                           self._one_step_with_dense_TimeIndep(t0,\n                                                    self.dense_time.length-1,"),
     m("apply contracts rho from the left", "C08-E",
       "                oper_ven.data = numpy.tensordot(self.data[ti, :, :, :, :],\n                                                target.data)",
       "                oper_ven.data = numpy.tensordot(target.data,\n                                                self.data[ti, :, :, :, :])"),
@@ -57,11 +57,11 @@ CASES += [
 
 CASES += [
     m("saved first step is a view of the running value", "C08-D",
-      "                if save:\n                    self.data[1,:,:,:,:] = self.Udt[:,:,:,:]\n                else:\n                    self.data[:,:,:,:] = self.Udt[:,:,:,:]\n",
-      "                if save:\n                    self.data[1,:,:,:,:] = self.Udt[:,:,:,:]\n                else:\n                    self._data = self.Udt\n"),
+      "                if save:\n                    self.data[1,:,:,:,:] = self.Udt.data[:,:,:,:]\n                else:\n                    self.data[:,:,:,:] = self.Udt.data[:,:,:,:]\n",
+      "                if save:\n                    self.data[1,:,:,:,:] = self.Udt.data[:,:,:,:]\n                else:\n                    self._data = self.Udt.data\n"),
     m("step taken from the running value instead of the one-step routine", "C08-D",
-      "                if save:\n                    self.data[1,:,:,:,:] = self.Udt[:,:,:,:]\n                else:\n                    self.data[:,:,:,:] = self.Udt[:,:,:,:]\n",
-      "                if save:\n                    self.data[1,:,:,:,:] = self.Udt[:,:,:,:]\n                else:\n                    self.data[:,:,:,:] = self.Udt[:,:,:,:]\n                    self.Udt = self.data\n"),
+      "                if save:\n                    self.data[1,:,:,:,:] = self.Udt.data[:,:,:,:]\n                else:\n                    self.data[:,:,:,:] = self.Udt.data[:,:,:,:]\n",
+      "                if save:\n                    self.data[1,:,:,:,:] = self.Udt.data[:,:,:,:]\n                else:\n                    self.data[:,:,:,:] = self.Udt.data[:,:,:,:]\n                    self.Udt = self.data\n"),
 ]
 
 SO = "quantarhei/qm/liouvillespace/superoperator.py"
@@ -112,4 +112,28 @@ CASES += [
       "            ti = self.time.nearest(time)\n\n            # the superoperator handed out", "            ti, dt = self.time.locate(time)\n\n            # the superoperator handed out"),
     m("apply() selects the lower neighbour of the requested time", "C08-E",
       "            ti = self.time.nearest(time)\n            if copy:", "            ti, dt = self.time.locate(time)\n            if copy:"),
+]
+
+ESOF = "quantarhei/qm/liouvillespace/evolutionsuperoperator.py"
+CASES += [
+    {"name": "one-interval propagator kept as a plain array (the repaired defect)", "kind": "mutant", "rule": "C08-J", "edits": [
+        (ESOF, "                self.Udt = SuperOperator(data=\n                           self._one_step_with_dense_TimeIndep(t0,\n                                                    self.dense_time.length,\n                                                    self.dense_time.step, Nt)) ",
+               "                self.Udt = self._one_step_with_dense_TimeIndep(t0,\n                                                    self.dense_time.length,\n                                                    self.dense_time.step, Nt) ", 1),
+        (ESOF, "self.Udt.data", "self.Udt", 4)]},
+    {"name": "later steps multiply with the raw storage of the kept propagator", "kind": "mutant", "rule": "C08-J", "edits": [
+        (ESOF, "                        numpy.tensordot(self.Udt.data, self.data[:,:,:,:])", "                        numpy.tensordot(self.Udt, self.data[:,:,:,:])", 1)]},
+    {"name": "step-by-step mode does not record the rotating frame (the repaired defect)", "kind": "mutant", "rule": "C08-K", "edits": [
+        (ESOF, "                self.now += 1\n\n        if self.ham.has_rwa:\n            # evolution was calculated in RWA\n            self.is_in_rwa = True\n", "                self.now += 1\n", 1)]},
+    {"name": "calculate() asks a missing relaxation tensor (the repaired defect)", "kind": "mutant", "rule": "C08-K", "edits": [
+        (ESOF, "        elif (self.relt is not None) and self.relt.is_time_dependent:", "        elif self.relt.is_time_dependent:", 1)]},
+    {"name": "calculate() guard written as nested if", "kind": "twin", "edits": [
+        (ESOF, "        if self.ham.has_rwa:\n            # evolution was calculated in RWA\n            self.is_in_rwa = True\n\n            \n    def _elemental_step_TimeIndep",
+               "        if self.ham.has_rwa:\n            self.is_in_rwa = True\n\n            \n    def _elemental_step_TimeIndep", 1)]},
+    {"name": "apply('all') reads the axis of the string (the repaired defect)", "kind": "mutant", "rule": "C08-L", "edits": [
+        (ESOF, "                for tt in self.time.data:\n                    rhot.data[k_i,:,:] = \\\n                    numpy.tensordot(self.data[k_i,:,:,:,:],", "                for tt in time.data:\n                    rhot.data[k_i,:,:] = \\\n                    numpy.tensordot(self.data[k_i,:,:,:,:],", 1)]},
+    {"name": "list of times replaced by an axis from its first two entries (the repaired defect)", "kind": "mutant", "rule": "C08-L", "edits": [
+        (ESOF, "                    if not numpy.allclose(ntime.data, numpy.array(time)):\n                        raise Exception(\"The times have to be equidistant\")\n", "", 1)]},
+    {"name": "list of times compared entry by entry in a loop", "kind": "twin", "edits": [
+        (ESOF, "                    if not numpy.allclose(ntime.data, numpy.array(time)):\n                        raise Exception(\"The times have to be equidistant\")\n",
+               "                    for k_t, t_k in enumerate(time):\n                        if abs(ntime.data[k_t] - t_k) > 1.0e-8*abs(dt):\n                            raise Exception(\"The times have to be equidistant\")\n", 1)]},
 ]
